@@ -122,11 +122,28 @@ func extraBase32(ctx *core.Ctx) (int, string, []core.ExtraFailure) {
 		}
 	}
 	rt := 0
+	arena := make([]byte, 64)
 	checkRT := func(v int64) {
 		evals++
 		rt++
 		s := randz.ID(v).Base32()
-		back, err := randz.ParseBase32([]byte(s))
+		// the input is a window of a larger arena with canaries around it and spare capacity
+		// behind it: ParseBase32 must neither write through nor read past the window
+		for i := range arena {
+			arena[i] = 0xA5
+		}
+		off := int(uint64(v) % 17)
+		win := arena[off : off+len(s)]
+		copy(win, s)
+		back, err := randz.ParseBase32(win)
+		for i := range arena {
+			if (i < off || i >= off+len(s)) && arena[i] != 0xA5 || (i >= off && i < off+len(s) && arena[i] != s[i-off]) {
+				if len(fails) < 3 {
+					fails = append(fails, core.ExtraFailure{Failure: core.Failure{Key: "base32-writes-input", Desc: fmt.Sprintf("ParseBase32 changed its argument's arena at offset %d (input %q at offset %d)", i, s, off)}, Payload: map[string]any{"lines": []string{"@ C20 id", "p32 " + hx([]byte(s))}}})
+				}
+				break
+			}
+		}
 		ref, ok := refParse([]byte(s))
 		if err != nil || int64(back) != v || !ok || !ref.IsInt64() || ref.Int64() != v {
 			if len(fails) < 3 {
@@ -380,6 +397,24 @@ func extraIdGen(ctx *core.Ctx) (int, string, []core.ExtraFailure) {
 func extraStrReal(ctx *core.Ctx) (int, string, []core.ExtraFailure) {
 	var fails []core.ExtraFailure
 	evals := 0
+	// results ledger: every string handed out, with an independent copy taken at once;
+	// re-compared after all later calls (a result must not change when the library is
+	// called again, on the same or on another generator)
+	type entry struct {
+		got  string
+		copy []byte
+		what string
+	}
+	var ledger []entry
+	keep := func(s, what string) { ledger = append(ledger, entry{s, []byte(s), what}) }
+	defer func() {
+		for _, e := range ledger {
+			if e.got != string(e.copy) {
+				fails = append(fails, core.ExtraFailure{Failure: core.Failure{Key: "result-not-stable", Desc: fmt.Sprintf("%s returned %q, after later calls the same string value reads %q", e.what, e.copy, e.got)}, Payload: map[string]any{"first": hx(e.copy), "now": hx([]byte(e.got))}})
+				break
+			}
+		}
+	}()
 	sets := []string{randz.CHAR_SET, randz.CHAR_LOWER_SET, "a", "ab", "abc", "abcd", "你好世界", "é😀x\xff", strings.Repeat("xyz", 30)}
 	src := randz.NewLockRandSource(int64(ctx.Seed))
 	for _, cs := range sets {
@@ -391,6 +426,13 @@ func extraStrReal(ctx *core.Ctx) (int, string, []core.ExtraFailure) {
 		for n := 0; n <= 130; n++ {
 			var s string
 			pn := try(func() { s = g.Generate(n) })
+			keep(s, fmt.Sprintf("Generate(%d) over %q", n, cs))
+			if n%16 == 0 {
+				id := randz.ID(int64(n)*0x1f3d5b79 + int64(len(cs)))
+				keep(id.Base32(), "ID.Base32()")
+				keep(id.Base36(), "ID.Base36()")
+				keep(id.String(), "ID.String()")
+			}
 			evals++
 			bad := pn != nil || utf8.RuneCountInString(s) != n
 			for _, r := range s {
